@@ -362,6 +362,26 @@ class Engine:
     def e_GeneratorExp(self, node, st):
         return V.vconc(GenExp(node, st.cur))
 
+    def e_DictComp(self, node, st):
+        """A comprehension that mentions no local variable is a closed expression of the live
+        package: it is evaluated by the real interpreter (ground fact), e.g. the header table
+        {d.value + i.value: (i, d) for i, d in itertools.product(Instrument, Difficulty)}."""
+        targets = set()
+        for g in node.generators:
+            for n in ast.walk(g.target):
+                if isinstance(n, ast.Name):
+                    targets.add(n.id)
+        free = {n.id for n in ast.walk(node) if isinstance(n, ast.Name) and isinstance(n.ctx, ast.Load)} - targets
+        if any(st.lookup(nm) is not None for nm in free):
+            raise OutOfSubset("dict comprehension over local values")
+        mod = live_module(self.fctx.module)
+        try:
+            val = eval(compile(ast.Expression(node), "<closed-comprehension>", "eval"), dict(mod.__dict__))
+        except Exception as e:
+            raise OutOfSubset(f"closed comprehension cannot be evaluated: {e!r}")
+        self.ctx.notes.append(f"ground: closed comprehension at line {node.lineno} evaluated by the live interpreter ({len(val)} entries)")
+        return V.vconc(val)
+
     def e_ListComp(self, node, st):
         if len(node.generators) != 1 or node.generators[0].ifs or node.generators[0].is_async:
             raise OutOfSubset("list comprehension form")
@@ -676,7 +696,7 @@ class Engine:
             return self.class_attr_on_instance(cls, v, name, st)
         if isinstance(s, EnumS):
             if name == "value":
-                return v.d
+                return V.enum_value(v)
             cls = self.live_class(s.key)
             return self.class_attr_on_instance(cls, v, name, st)
         if isinstance(s, OptS):
